@@ -7,7 +7,7 @@ git -C /repo diff --quiet || { echo "/repo is dirty"; exit 2; }
 git -C /repo apply "$P" || { echo "patch does not apply"; exit 2; }
 trap 'git -C /repo checkout -- . ' EXIT
 for id in "$@"; do
-  out=$(VERIF_DIR=/tmp/vout bin/olricvet check "$id" quick 2>&1); rc=$?
+  cp -f /verif/KNOWN_FINDINGS.txt /tmp/vout/ 2>/dev/null; out=$(VERIF_DIR=/tmp/vout bin/olricvet check "$id" quick 2>&1); rc=$?
   if [ $rc -eq 1 ]; then echo "$id DETECTED: $(echo "$out" | grep -v '^VIOLATION' | grep 'violated\|undecided' | head -3 | cut -c1-220)"; 
   elif [ $rc -eq 0 ]; then echo "$id missed"; else echo "$id ERROR rc=$rc: $(echo "$out" | tail -3)"; fi
 done
